@@ -60,9 +60,6 @@ class Step:
 
 def normalise(op, k, impl_v, model_v, step):
     """Canonicalisations applied before diffing (documented in DESIGN.md §4.2)."""
-    if op == "pure" and k == "_" and step.line.startswith("pure marshal "):
-        # MarshalJSON is implementation-only here: its output is fed to the parser on the next line
-        return "-", "-"
     if op == "pure" and k == "_":
         # implementation prints the decoded payload after err:v for diagnostics
         if impl_v.startswith("err:v:"):
